@@ -33,7 +33,7 @@ grep -v '^#' "$V/selftest/expect.tsv" | while IFS="$(printf '\t')" read -r patch
   run_one "$V/selftest/mutants/$patch" "$prop" "$want" "$patch"
 done
 if [ $SEEDS -eq 1 ]; then
-  for d in "$V"/seeded/C*[ab]; do
+  for d in "$V"/seeded/C*[a-z]; do
     [ -f "$d/patch.diff" ] || continue
     b=$(basename "$d"); prop=${b%?}
     [ -n "$ONLY" ] && ! echo "$b" | grep -q "$ONLY" && continue
